@@ -21,7 +21,12 @@ package alignment
 //@   ensures [new]      result == nil ==> forall c int, r int :: 0 <= c && c < len(a) && 0 <= r && r < len(a[c]) ==> s.Seq[old(len(s.Seq)) + c][r] == a[c][r].L
 //@   ensures [fresh]    result == nil ==> forall c int :: old(len(s.Seq)) <= c && c < len(s.Seq) ==> fresh(s.Seq[c]) && len(s.Seq[c]) == len(s.Seq[0])
 //@   ensures [input]    forall c int, r int :: 0 <= c && c < len(a) && 0 <= r && r < len(a[c]) ==> a[c][r] == old(a[c][r])
+//@   ensures [wf]       wf(s)
+//@   ensures [accepts]  (forall c int :: 0 <= c && c < len(a) ==> len(a[c]) == len(old(s.Seq[0]))) ==> result == nil
+//@   ensures [allocated] result == nil ==> forall c int :: old(len(s.Seq)) <= c && c < len(s.Seq) ==> allocated(s.Seq[c])
+//@   assigns s.Seq, s.Seq[*], fresh
 //@   loop 1 invariant 0 <= idx && idx <= len(a) && forall k int :: 0 <= k && k < idx ==> len(a[k]) == len(s.Seq[0])
+//@   loop 2 invariant forall c int, d int :: 0 <= c && c < d && d < len(s.Seq) ==> arr(s.Seq[c]) != arr(s.Seq[d])
 //@   loop 2 invariant 0 <= idx && idx <= len(a) && wfPrefix(s, old(len(s.Seq))) && len(s.Seq) == old(len(s.Seq)) + idx && cap(s.Seq) >= old(len(s.Seq)) + len(a)
 //@   loop 2 invariant forall c int :: 0 <= c && c < old(len(s.Seq)) ==> s.Seq[c] == old(s.Seq[c])
 //@   loop 2 invariant forall c int, r int :: 0 <= c && c < old(len(s.Seq)) && 0 <= r && r < len(old(s.Seq[c])) ==> old(s.Seq[c])[r] == old(s.Seq[c][r])
@@ -33,6 +38,31 @@ package alignment
 //@   loop 3 invariant 0 <= idx && idx <= len(r) && len(c) == len(r) && fresh(c)
 //@   loop 3 invariant forall k int :: 0 <= k && k < idx ==> c[k] == r[k].L
 //@ spec wfPrefix(s *Seq, n int) bool = s != nil && n > 0 && n <= len(s.Seq)
+
+// AppendEach extends every row by the letters supplied for it; shorter runs are padded with the gap letter.
+//@ func (*Seq).AppendEach
+//@   property C07
+//@   requires wf(s) && len(s.Seq[0]) > 0 && s.Alpha != nil
+//@   ensures [rejected] result != nil ==> s.Seq == old(s.Seq)
+//@   ensures [old]      forall c int :: 0 <= c && c < old(len(s.Seq)) ==> s.Seq[c] == old(s.Seq[c])
+//@   ensures [old-cells] forall c int, r int :: 0 <= c && c < old(len(s.Seq)) && 0 <= r && r < len(old(s.Seq[c])) ==> old(s.Seq[c])[r] == old(s.Seq[c][r])
+//@   ensures [new]      result == nil ==> forall k int, r int :: 0 <= k && k < len(s.Seq) - old(len(s.Seq)) && 0 <= r && r < len(a) ==> s.Seq[old(len(s.Seq)) + k][r] == (k < len(a[r]) ? a[r][k].L : gapOf(s.Alpha))
+//@   ensures [count]    result == nil ==> len(s.Seq) >= old(len(s.Seq)) && forall r int :: 0 <= r && r < len(a) ==> len(a[r]) <= len(s.Seq) - old(len(s.Seq))
+//@   ensures [wf]       wf(s)
+//@   loop 1 invariant 0 <= idx && idx <= len(a) && forall r int :: 0 <= r && r < idx ==> len(a[r]) <= max
+//@   loop 1 invariant idx > 0 ==> max >= 0
+//@   loop 2 invariant 0 <= i && (max >= 0 ==> i <= max) && wf(s) && len(s.Seq) == old(len(s.Seq)) + i && len(s.Seq[0]) == len(a) && s.Alpha == old(s.Alpha) && s.Alpha != nil
+//@   loop 2 invariant len(b) == 0 && cap(b) >= len(a) && fresh(b) && allocated(b)
+//@   loop 2 invariant forall r int :: 0 <= r && r < len(a) ==> len(a[r]) <= max
+//@   loop 2 invariant forall c int :: 0 <= c && c < old(len(s.Seq)) ==> s.Seq[c] == old(s.Seq[c])
+//@   loop 2 invariant forall c int, r int :: 0 <= c && c < old(len(s.Seq)) && 0 <= r && r < len(old(s.Seq[c])) ==> old(s.Seq[c])[r] == old(s.Seq[c][r])
+//@   loop 2 invariant forall k int, r int :: 0 <= k && k < i && 0 <= r && r < len(a) ==> s.Seq[old(len(s.Seq)) + k][r] == (k < len(a[r]) ? a[r][k].L : gapOf(s.Alpha))
+//@   loop 2 invariant forall c int :: old(len(s.Seq)) <= c && c < len(s.Seq) ==> fresh(s.Seq[c]) && allocated(s.Seq[c])
+//@   loop 2 invariant forall r int :: 0 <= r && r < len(a) ==> a[r] == old(a[r])
+//@   loop 2 invariant forall r int, k int :: 0 <= r && r < len(a) && 0 <= k && k < len(a[r]) ==> a[r][k] == old(a[r][k])
+//@   loop 3 invariant 0 <= idx && idx <= len(a) && len(b) == idx && cap(b) >= len(a) && fresh(b) && allocated(b)
+//@   loop 3 invariant forall r int :: 0 <= r && r < idx ==> b[r].L == (i < len(a[r]) ? a[r][i].L : gapOf(s.Alpha))
+//@   loop 3 writes fresh
 
 // ---- quality alignments ----
 //@ spec qwf(s *QSeq) bool = s != nil && len(s.Seq) > 0
@@ -49,7 +79,12 @@ package alignment
 //@   ensures [new]      result == nil ==> forall c int, r int :: 0 <= c && c < len(a) && 0 <= r && r < len(a[c]) ==> s.Seq[old(len(s.Seq)) + c][r] == a[c][r]
 //@   ensures [fresh]    result == nil ==> forall c int :: old(len(s.Seq)) <= c && c < len(s.Seq) ==> fresh(s.Seq[c]) && len(s.Seq[c]) == len(s.Seq[0])
 //@   ensures [input]    forall c int, r int :: 0 <= c && c < len(a) && 0 <= r && r < len(a[c]) ==> a[c][r] == old(a[c][r])
+//@   ensures [wf]       qwf(s)
+//@   ensures [accepts]  (forall c int :: 0 <= c && c < len(a) ==> len(a[c]) == len(old(s.Seq[0]))) ==> result == nil
+//@   ensures [allocated] result == nil ==> forall c int :: old(len(s.Seq)) <= c && c < len(s.Seq) ==> allocated(s.Seq[c])
+//@   assigns s.Seq, s.Seq[*], fresh
 //@   loop 1 invariant 0 <= idx && idx <= len(a) && forall k int :: 0 <= k && k < idx ==> len(a[k]) == len(s.Seq[0])
+//@   loop 2 invariant forall c int, d int :: 0 <= c && c < d && d < len(s.Seq) ==> arr(s.Seq[c]) != arr(s.Seq[d])
 //@   loop 2 invariant disjoint(a, s.Seq)
 //@   loop 2 invariant 0 <= idx && idx <= len(a) && s != nil && len(s.Seq) == old(len(s.Seq)) + idx && cap(s.Seq) >= old(len(s.Seq)) + len(a) && old(len(s.Seq)) > 0
 //@   loop 2 invariant forall c int :: 0 <= c && c < old(len(s.Seq)) ==> s.Seq[c] == old(s.Seq[c])
@@ -59,3 +94,34 @@ package alignment
 //@   loop 2 invariant forall c int :: 0 <= c && c < len(a) ==> a[c] == old(a[c])
 //@   loop 2 invariant forall c int, r int :: 0 <= c && c < len(a) && 0 <= r && r < len(a[c]) ==> a[c][r] == old(a[c][r])
 //@   loop 2 invariant forall k int :: 0 <= k && k < len(a) ==> len(a[k]) == len(old(s.Seq[0]))
+
+//@ func (*QSeq).AppendEach
+//@   property C07
+//@   requires qwf(s) && len(s.Seq[0]) > 0 && s.Alpha != nil && disjoint(a, s.Seq)
+//@   ensures [rejected] result != nil ==> s.Seq == old(s.Seq)
+//@   ensures [old]      forall c int :: 0 <= c && c < old(len(s.Seq)) ==> s.Seq[c] == old(s.Seq[c])
+//@   ensures [old-cells] forall c int, r int :: 0 <= c && c < old(len(s.Seq)) && 0 <= r && r < len(old(s.Seq[c])) ==> old(s.Seq[c])[r] == old(s.Seq[c][r])
+//@   ensures [new]      result == nil ==> forall k int, r int :: 0 <= k && k < len(s.Seq) - old(len(s.Seq)) && 0 <= r && r < len(a) ==> s.Seq[old(len(s.Seq)) + k][r].L == (k < len(a[r]) ? a[r][k].L : gapOf(s.Alpha))
+//@   ensures [new-q]    result == nil ==> forall k int, r int :: 0 <= k && k < len(s.Seq) - old(len(s.Seq)) && 0 <= r && r < len(a) && k < len(a[r]) ==> s.Seq[old(len(s.Seq)) + k][r].Q == a[r][k].Q
+//@   ensures [count]    result == nil ==> len(s.Seq) >= old(len(s.Seq)) && forall r int :: 0 <= r && r < len(a) ==> len(a[r]) <= len(s.Seq) - old(len(s.Seq))
+//@   ensures [wf]       qwf(s)
+//@   loop 1 invariant 0 <= idx && idx <= len(a) && forall r int :: 0 <= r && r < idx ==> len(a[r]) <= max
+//@   loop 1 invariant idx > 0 ==> max >= 0
+//@   loop 2 invariant 0 <= i && (max >= 0 ==> i <= max) && qwf(s) && len(s.Seq) == old(len(s.Seq)) + i && len(s.Seq[0]) == len(a) && s.Alpha == old(s.Alpha) && s.Alpha != nil
+//@   loop 2 invariant len(b) == 0 && cap(b) >= len(a) && fresh(b) && allocated(b)
+//@   loop 2 invariant forall r int :: 0 <= r && r < len(a) ==> len(a[r]) <= max
+//@   loop 2 invariant forall c int :: 0 <= c && c < old(len(s.Seq)) ==> s.Seq[c] == old(s.Seq[c])
+//@   loop 2 invariant forall c int, r int :: 0 <= c && c < old(len(s.Seq)) && 0 <= r && r < len(old(s.Seq[c])) ==> old(s.Seq[c])[r] == old(s.Seq[c][r])
+//@   loop 2 invariant forall k int, r int :: 0 <= k && k < i && 0 <= r && r < len(a) ==> s.Seq[old(len(s.Seq)) + k][r].L == (k < len(a[r]) ? a[r][k].L : gapOf(s.Alpha))
+//@   loop 2 invariant forall k int, r int :: 0 <= k && k < i && 0 <= r && r < len(a) && k < len(a[r]) ==> s.Seq[old(len(s.Seq)) + k][r].Q == a[r][k].Q
+//@   loop 2 invariant forall c int :: old(len(s.Seq)) <= c && c < len(s.Seq) ==> fresh(s.Seq[c]) && allocated(s.Seq[c]) && arr(s.Seq[c]) != arr(b)
+//@   loop 2 invariant forall r int :: 0 <= r && r < len(a) ==> a[r] == old(a[r])
+//@   loop 2 invariant forall r int, k int :: 0 <= r && r < len(a) && 0 <= k && k < len(a[r]) ==> a[r][k] == old(a[r][k])
+//@   loop 2 invariant disjoint(a, s.Seq)
+//@   loop 3 invariant 0 <= idx && idx <= len(a) && len(b) == idx && cap(b) >= len(a) && fresh(b) && allocated(b)
+//@   loop 3 invariant forall r int :: 0 <= r && r < idx ==> b[r].L == (i < len(a[r]) ? a[r][i].L : gapOf(s.Alpha))
+//@   loop 3 invariant forall r int :: 0 <= r && r < idx && i < len(a[r]) ==> b[r].Q == a[r][i].Q
+//@   loop 3 invariant forall c int :: old(len(s.Seq)) <= c && c < len(s.Seq) ==> arr(s.Seq[c]) != arr(b)
+//@   loop 3 invariant forall k int, r int :: 0 <= k && k < i && 0 <= r && r < len(a) ==> s.Seq[old(len(s.Seq)) + k][r].L == (k < len(a[r]) ? a[r][k].L : gapOf(s.Alpha))
+//@   loop 3 invariant forall k int, r int :: 0 <= k && k < i && 0 <= r && r < len(a) && k < len(a[r]) ==> s.Seq[old(len(s.Seq)) + k][r].Q == a[r][k].Q
+//@   loop 3 writes fresh
